@@ -130,3 +130,22 @@ pub open spec fn spec_boxtype_of_u32(t: u32) -> BoxType {
 
 /// a code is `known` iff it is one of the registered codes above
 pub open spec fn boxtype_known(t: u32) -> bool { !(spec_boxtype_of_u32(t) is UnknownBox) }
+
+// ---- FourCC <-> u32: the four characters are the big-endian bytes of the code (14496-12 4.2 `unsigned int(32) boxtype`)
+#[verifier::opaque]
+pub open spec fn fourcc_of_u32(v: u32) -> FourCC {
+    FourCC { value: [ (v / 0x1000000) as u8, ((v / 0x10000) % 256) as u8, ((v / 0x100) % 256) as u8, (v % 256) as u8 ] }
+}
+
+#[verifier::opaque]
+pub open spec fn u32_of_fourcc(f: FourCC) -> u32 {
+    ((f.value[0] as u32) * 0x1000000 + (f.value[1] as u32) * 0x10000 + (f.value[2] as u32) * 0x100 + f.value[3] as u32) as u32
+}
+
+/// decoding the encoding of a code gives the code back (used wherever a brand / handler code is read from the file)
+pub broadcast proof fn lemma_fourcc_roundtrip(v: u32)
+    ensures u32_of_fourcc(#[trigger] fourcc_of_u32(v)) == v
+{
+    reveal(fourcc_of_u32);
+    reveal(u32_of_fourcc);
+}
